@@ -11,10 +11,12 @@ _, cfgs = chk.export_configs("Regress", "RegressMC_quick.cfg", keep=lambda c: c.
 def pick(name, pred):
     c = next(c for c in cfgs if pred(c))
     return c19.execute({"id": "good-" + name, "cfg": c, "seed": 7})
-cp = pick("cp", lambda c: c["kind"] == "reg" and c["model"] == "cp" and c["xs"] == [3, 2] and c["ys"] == [2] and c["rank"] == 1 and c["opt"] == "tight" and c["reg"] == 100)
-tk = pick("tucker", lambda c: c["kind"] == "reg" and c["model"] == "tucker" and c["xs"] == [2, 2, 2] and c["rank"] == 1 and c["opt"] == "loose" and c["reg"] == 100)
+cp = pick("cp", lambda c: c["kind"] == "reg" and c["model"] == "cp" and c["xs"] == [3, 2] and c["ys"] == [2] and c["rank"] == 1 and c["opt"] == "tight" and c["reg"] == 100 and c["ux"] == 0)
+tk = pick("tucker", lambda c: c["kind"] == "reg" and c["model"] == "tucker" and c["xs"] == [2, 2, 2] and c["rank"] == 1 and c["opt"] == "loose" and c["reg"] == 100 and c["ux"] == 0)
 pl = pick("pls", lambda c: c["kind"] == "pls" and c["xs"] == [3, 2] and c["ny"] == 2 and c["nc"] == 2 and c["opt"] == "tol2")
-good = [cp, tk, pl]
+pu = pick("pls-units", lambda c: c["kind"] == "pls" and c["xs"] == [2, 2, 2, 2] and c["ux"] == 80 and c["nc"] == 3 and c["ny"] == 2)
+cu = pick("cp-units", lambda c: c["kind"] == "reg" and c["model"] == "cp" and c["xs"] == [3, 2] and c["ys"] == [2] and c["ux"] == -20 and c["rank"] == 1)
+good = [cp, tk, pl, pu, cu]
 evs, want = list(good), {}
 def mut(base, name, clause, f):
     e = copy.deepcopy(base); e["id"] = name; f(e); evs.append(e); want[name] = clause
@@ -65,6 +67,9 @@ mut(pl, "pls-form-predict", "PredictDataForm", lambda e: e["extra"]["forms"][1][
 mut(pl, "pls-bad-fit-accepted", "BadFitNotRejected", lambda e: e["extra"]["reject"].update(raised=False, exc=""))
 mut(pl, "pls-reject-changed", "RejectedFitChangedModel", bump(["extra", "reject", "pred"], 0, 7))
 mut(pl, "pls-refit", "RefitIndependent", bump(["extra", "refit", "scores"], 0, 7))
+mut(pu, "units-unit-loadings", "UnitLoadings", lambda e: e["base"]["loads"][3].__setitem__("data", [int(0.99 * x) for x in e["base"]["loads"][3]["data"]]))
+mut(pu, "units-hung", "FitHung", lambda e: e["base"].update(raised=True, exc="Timeout"))
+mut(cu, "units-predict", "Predict", bump(["pred"], 0, 40))
 def permswap(e): e["perm"][0], e["perm"][1] = e["perm"][1], e["perm"][0]
 mut(pl, "pls-perm", "PermScores", permswap)
 mut(pl, "pls-nan", "Finite", lambda e: e["base"]["scores"]["data"].__setitem__(0, 2000000001))
